@@ -404,6 +404,20 @@ fn run_headers_and_metadata(rep: &Arc<Report>) {
                 local.evals += 1;
                 match panicx::catch(|| FrameHeader::new(*bs, ca.clone(), *bps, *rate, off)) {
                     Ok(Ok(h)) => {
+                        // every fifth header is first written into a sink that refuses it (the constructors
+                        // no longer let a value through whose write is refused by a range check): what a
+                        // failed write leaves in the thread's scratch must not show in the next write
+                        if local.evals % 5 == 0 {
+                            let r = panicx::catch(|| {
+                                let mut bad = crate::bitmodel::FailingSink::new(0, crate::bitmodel::Flavour::Full);
+                                h.write(&mut bad).is_err()
+                            });
+                            match r {
+                                Ok(true) => local.count("header_writes_into_a_refusing_sink", 1),
+                                Ok(false) => rep.violation("ctor:frame_header|write_ok_into_refusing_sink", "a header write into a sink that fails on its first operation returned Ok", cj(), *n),
+                                Err(p) => rep.violation(&format!("ctor:frame_header|{}", p.class()), &format!("a header write into a failing sink panicked: {}", p.describe()), cj(), *n),
+                            }
+                        }
                         if check_component(rep, &mut local, "ctor:frame_header", &h, &cj, *n, true).is_some() {
                             local.nontrivial.insert(crate::universe::fnv(&format!("{bs}/{bps}/{rate}/{ch}/{variable}/{n}")));
                         }
